@@ -56,13 +56,13 @@ let cmd_dict (tk : string list) : bool =
           pr " %d\n" (if info.kind = "BLOCKS" then m else m + 1)
         | "locate" -> pr " %s\n" (dec_of_n (spec_locate s (bytes_of_hex arg)))
         | "extract" ->
-          (match spec_extract s (n_of_string arg) with
+          (match spec_extract_x s (n_of_string arg) with
            | Some x -> pr "%s\n" (str_out x) | None -> pr " NULL/0\n")
         | "locateRank" ->
           if List.mem info.kind rank_kinds then pr " %s\n" arg else pr " 0\n"
         | "extractRank" ->
           if List.mem info.kind rank_kinds then
-            (match spec_extract s (n_of_string arg) with
+            (match spec_extract_x s (n_of_string arg) with
              | Some x -> pr "%s\n" (str_out x) | None -> pr " NULL/0\n")
           else pr " NULL/12345\n"
         | "locatePrefix" ->
